@@ -60,9 +60,22 @@ class Lock:
         self.f.close()
 
 
-def run(cmd, cwd=None, env=None, timeout=None, stdin=None, stdout=subprocess.PIPE):
-    p = subprocess.run(cmd, cwd=cwd, env=env, timeout=timeout, stdin=stdin, stdout=stdout,
-                       stderr=subprocess.STDOUT, text=True)
+def _limit_as():
+    import resource
+    lim = 24 << 30
+    try:
+        resource.setrlimit(resource.RLIMIT_AS, (lim, lim))
+    except (ValueError, OSError):
+        pass
+
+
+def run(cmd, cwd=None, env=None, timeout=None, stdin=None, stdout=subprocess.PIPE, limit_mem=False):
+    try:
+        p = subprocess.run(cmd, cwd=cwd, env=env, timeout=timeout, stdin=stdin, stdout=stdout,
+                           stderr=subprocess.STDOUT, text=True, preexec_fn=_limit_as if limit_mem else None)
+    except subprocess.TimeoutExpired as e:
+        out = e.stdout if isinstance(e.stdout, str) else (e.stdout or b"").decode(errors="replace")
+        return 124, (out or "") + "\n[timeout after %ss]" % timeout
     return p.returncode, p.stdout if p.stdout is not None else ""
 
 
@@ -173,7 +186,8 @@ class Ctx:
         os.makedirs(d, exist_ok=True)
         env = dict(os.environ)
         env.setdefault("GOMEMLIMIT", "6GiB")
-        rc, out = run([vh_path(self.prop), sub, "-dir", d] + extra_args, cwd=self.work, env=env, timeout=timeout)
+        rc, out = run([vh_path(self.prop), sub, "-dir", d] + extra_args, cwd=self.work, env=env, timeout=timeout,
+                      limit_mem=True)
         return rc, out
 
     def driver(self, d, timeout=3000):
@@ -191,14 +205,16 @@ class Ctx:
             args += ["-ops", ops_file]
         rc, out = self.vh(sub, args, d)
         if rc != 0 or not os.path.exists(os.path.join(d, "meta.json")):
-            # the harness itself died (fatal error, OOM): attribute to the last op written
+            # the harness itself died (fatal error, OOM, timeout): the culprit is the op written to
+            # ops.txt that has no result line in go.out
             last = ""
             try:
                 ops = open(os.path.join(d, "ops.txt")).read().splitlines()
-                last = ops[-1] if ops else ""
+                done = open(os.path.join(d, "go.out")).read().splitlines()
+                last = ops[len(done)] if len(done) < len(ops) else (ops[-1] if ops else "")
             except OSError:
                 pass
-            return None, [{"op": last, "out": "harness-crashed", "why": "harness process died: " + out[-600:]}], {}
+            return [], [{"op": last, "out": "process-died", "why": "the harness process died while running this operation (fatal error / out of memory / timeout): " + out[-400:]}], {}
         rc, err = self.driver(d)
         ops = open(os.path.join(d, "ops.txt")).read().splitlines()
         go = open(os.path.join(d, "go.out")).read().splitlines()
